@@ -107,7 +107,11 @@ fn run_child(v: &Value, idx: usize, emitter: &std::path::Path) -> (Value, Option
     let (tx, rx) = std::sync::mpsc::channel();
     let (o2, e2, em, sc) = (o.clone(), e.clone(), emitter.to_path_buf(), serde_json::to_string(&script).unwrap());
     std::thread::spawn(move || {
-        let r = Command::new(em).arg(sc).arg(UNIT.to_string()).arg(delay.to_string()).output_and_write_streams(o2, e2);
+        // every other child reads its standard input to the end first; the caller hands it an empty one
+        let mut cmd = Command::new(em);
+        cmd.arg(sc).arg(UNIT.to_string()).arg(delay.to_string());
+        if idx % 2 == 0 { cmd.stdin(std::process::Stdio::null()).env("EMITTER_READ_STDIN", "1"); }
+        let r = cmd.output_and_write_streams(o2, e2);
         let _ = tx.send(r);
     });
     let event_base = json!({"script": v["script"], "delay_us": delay});
